@@ -205,3 +205,85 @@ func TestC02(t *testing.T) {
 	f.NamedLoops = true
 	rapid.Check(t, modelProperty("C02", st, f, true))
 }
+
+// TestC01Named: naming a loop (`named L`) changes what is reported in the variables,
+// not what is matched: for loops whose body cannot match nothing, the spans of the
+// named form are those the reference matcher gives for the unnamed form.
+func TestC01Named(t *testing.T) {
+	seedNote(t)
+	StartWatchdog("C01", 60*time.Second)
+	st := NewStats("C01", "named", "exhaustive over loop heads {at least 1, at least 2, between 1 and 3, between 2 and 3, at most 2} x {greedy, fewest} x bodies {digit, 'a', in 'a', '1', ('a' or ('1' digit))} x continuation {nothing, 'x', line end} with the loop named, on all texts of length <= 4 over {1, a, x}; oracle: the reference matcher on the same program without the name; non-trivial = at least one match; distinct by (program, text)")
+	st.Exhaustive = true
+	defer st.Write()
+	type head struct {
+		src      string
+		min, max int
+	}
+	heads := []head{{"at least 1", 1, -1}, {"at least 2", 2, -1}, {"between 1 and 3", 1, 3}, {"between 2 and 3", 2, 3}, {"at most 2", 0, 2}}
+	bodies := []struct {
+		src  string
+		node *Node
+	}{
+		{"digit", &Node{K: KClass, Class: "digit"}},
+		{"'a'", &Node{K: KLit, S: "a"}},
+		{"in 'a', '1'", &Node{K: KIn, Items: []Item{{Kind: 0, S: "a"}, {Kind: 0, S: "1"}}}},
+		{"('a' or ('1' digit))", &Node{K: KOr, Kids: []*Node{{K: KLit, S: "a"}, {K: KSeq, Kids: []*Node{{K: KLit, S: "1"}, {K: KClass, Class: "digit"}}}}}},
+	}
+	conts := []struct {
+		src  string
+		node *Node
+	}{{"", nil}, {"'x'", &Node{K: KLit, S: "x"}}, {"line end", &Node{K: KAnchor, Class: "line end"}}}
+	var texts []string
+	var gen func(prefix string, n int)
+	gen = func(prefix string, n int) {
+		texts = append(texts, prefix)
+		if n == 0 {
+			return
+		}
+		for _, c := range []string{"1", "a", "x"} {
+			gen(prefix+c, n-1)
+		}
+	}
+	gen("", 4)
+	for _, h := range heads {
+		for _, fewest := range []bool{false, true} {
+			for _, b := range bodies {
+				for _, k := range conts {
+					loop := &Node{K: KLoop, Min: h.min, Max: h.max, Fewest: fewest, Body: b.node}
+					body := []*Node{loop}
+					src := "find all " + h.src + " " + b.src
+					if fewest {
+						src += " fewest"
+					}
+					src += " named L"
+					if k.node != nil {
+						body = append(body, k.node)
+						src += " " + k.src
+					}
+					for _, text := range texts {
+						mr := ModelFindAll(nil, body, text, modelBudget)
+						if mr.OverBudget {
+							t.Fatalf("HARNESS: reference matcher over budget on %s / %q", src, text)
+						}
+						c := SpanCase{Src: src, Text: text, Want: mr.Spans}
+						st.Eval()
+						sig, what, discard := checkSpanCase(c)
+						if discard {
+							st.Count("discarded_vm_budget")
+							continue
+						}
+						if sig == "compile-error" {
+							t.Fatalf("HARNESS: %s: %s", src, what)
+						}
+						if sig != "" {
+							Fail(t, Failure{Property: "C01", Kind: "spans", What: src + " on " + fmt.Sprintf("%q", text) + ": " + what, Case: c, Sig: sig})
+						}
+						if len(mr.Spans) > 0 {
+							st.NonTrivial(src+"\x00"+text, func() any { return map[string]any{"src": src, "text": text, "matches": len(mr.Spans)} })
+						}
+					}
+				}
+			}
+		}
+	}
+}
